@@ -18,6 +18,10 @@ def unit(name, alias, rx, names=None, names_opt=None, boundary=(), types=None, *
     if 'rt_atomic_protM.c' in d['lib']: d['defines'] = list(d.get('defines', [])) + ['CV_CHECK_C03 1']
     return d
 MXAW = r'^cocls::co_awaiter<cocls::mutex>::'
+AW_RESUME = r'^cocls::awaiter::resume\(\)$'
+ATOMIC_WAIT = r'^std::atomic<bool>::wait\(bool, std::memory_order\) const$'
+SP_DTOR = r'^cocls::suspend_point<void>::~suspend_point\(\)$'
+SP_MERGE = r'^cocls::suspend_point<void>::operator<<\(cocls::suspend_point<void>&&\)$'
 UNITS = [
     unit('ready', 'mx_ready', r'^cocls::mutex::ready\(\)$'),
     unit('subscribe', 'mx_subscribe', r'^cocls::mutex::subscribe\(cocls::awaiter\*\)$', names_opt={'aw_subscribe': AWSUB, 'mx_build_queue': BQ}, boundary=[BQ], loop_contracts=True, defines=['CV_HAS_mx_build_queue_stub 1'],
@@ -31,6 +35,11 @@ UNITS = [
     unit('mxaw_ready', 'mxaw_ready', MXAW + r'await_ready\(\)$', names_opt={'g_ready_stub': r'^cocls::mutex::ready\(\)$'}, boundary=[r'^cocls::mutex::ready\(\)$'], types={'MXAW': 'cocls::co_awaiter<cocls::mutex>'}, lib=['rt_core.c', 'rt_atomic_seq.c']),
     unit('mxaw_suspend', 'mxaw_suspend', MXAW + r'await_suspend\(std::__n4861::coroutine_handle<void>\)$', names_opt={'g_subscribe_stub': r'^cocls::mutex::subscribe\(cocls::awaiter\*\)$'}, boundary=[r'^cocls::mutex::subscribe\(cocls::awaiter\*\)$'], types={'MXAW': 'cocls::co_awaiter<cocls::mutex>'}, lib=['rt_core.c', 'rt_atomic_seq.c']),
     unit('mxaw_resume', 'mxaw_resume', MXAW + r'await_resume\(\)$', types={'MXAW': 'cocls::co_awaiter<cocls::mutex>', 'OWNT': 'cocls::mutex::ownership'}, lib=['rt_core.c', 'rt_atomic_seq.c']),
+    unit('mxaw_sync', 'mxaw_sync', MXAW + r'sync\(\)$', names_opt={'s_ready_stub': r'^cocls::mutex::ready\(\)$', 's_subscribe_stub': r'^cocls::mutex::subscribe\(cocls::awaiter\*\)$', 's_wait_stub': ATOMIC_WAIT},
+         boundary=[r'^cocls::mutex::ready\(\)$', r'^cocls::mutex::subscribe\(cocls::awaiter\*\)$', ATOMIC_WAIT], types={'MXAW': 'cocls::co_awaiter<cocls::mutex>', 'SYNCAW': 'cocls::sync_awaiter'},
+         names={'sa_wakeup_fn': r'^cocls::sync_awaiter::wakeup\(cocls::awaiter\*, void\*\)$'}, lib=['rt_core.c', 'rt_atomic_seq.c'], harness='h_mxaw_sync'),
+    unit('lam_rel', 'lam_rel', LAM_REL, names_opt={'lr_resume_stub': AW_RESUME, 'lr_sp_dtor_stub': SP_DTOR, 'lr_merge_stub': SP_MERGE}, boundary=[AW_RESUME, SP_DTOR, SP_MERGE], ptypes={'LAMRELC': LAM_REL + '#0'}, lib=['rt_core.c', 'rt_atomic_seq.c'], harness='h_lam_rel'),
+    unit('lam_del', 'lam_del', LAM_DEL, names_opt={'lr_resume_stub': AW_RESUME, 'lr_sp_dtor_stub': SP_DTOR}, boundary=[AW_RESUME, SP_DTOR], ptypes={'LAMDELC': LAM_DEL + '#0'}, lib=['rt_core.c', 'rt_atomic_seq.c'], harness='h_lam_del'),
 ] + [
     dict(name='build_queue_bounded_%s' % t, driver='c07_mutex.cpp', roots=[BQ], names={'mx_build_queue': BQ}, types=TYPES, globals=GLOBALS, boundary=[], lib=['rt_core.c', 'rt_atomic_seq.c'],
          spec=['C07/m_spec_min.h', 'C07/h_bq_bounded.c'], harness='h_bq_bounded', defines=['BQ_N %d' % n], unwind=n + 2, bounded='request chains of 0..%d nodes, every bottom (doorman / NULL / own request as stop)' % n,
@@ -40,7 +49,7 @@ UNITS = [
 META = dict(
     level='proof',
     level_text='mutex::ready (try-lock), mutex::subscribe (request push incl. its CAS retry loop), mutex::unlock<Fn> (both instantiations) are verified thread-modularly over protocol M: at every atomic step the environment may do whatever the protocol allows (while I own the mutex others only push requests; otherwise the cell may hold anything), and a request pushed onto a held mutex belongs to the holder from that instant (its link is havocked at once). Contracts from the property: try-lock granted <=> the token was taken and the cell was NULL at that instant; subscribe not-suspended <=> the mutex was free at the instant of the push (then exactly one build_queue with the own request as stop), suspended <=> node handed to the holder and never looked at again; unlock: exactly one of {cell doorman->NULL with nothing pending, hand-over to the head of the private arrival-ordered queue by exactly one call of the functor}, queue refilled only when empty. ownership::release / ~ownership / try_lock are forwarder units (exactly one unlock / none when empty). build_queue (list reversal) is bounded: FIFO arrival order, stop node never dereferenced.',
-    level_note='Trusted: protocol-M primitives and their rely (lib/rt_atomic_protM.c), rely/guarantee soundness argument, abstract callees (build_queue inside subscribe/unlock units, the resume functor, unlock inside ownership units), clang front end, ir2c. Bounded: build_queue N=5/8. co_awaiter<mutex> glue is covered by forwarder units (await_ready = one try-lock, await_suspend = node carries the coroutine before exactly one subscribe, await_resume = ownership of the awaited mutex). Not covered: liveness (a request is eventually granted), mutex destructor. Genuine defect found and fixed: a0e1620 (see known_findings.json).',
+    level_note='Trusted: protocol-M primitives and their rely (lib/rt_atomic_protM.c), rely/guarantee soundness argument, abstract callees (build_queue inside subscribe/unlock units, the resume functor, unlock inside ownership units), clang front end, ir2c. Bounded: build_queue N=5/8. co_awaiter<mutex> glue is covered by forwarder units (await_ready = one try-lock, await_suspend = node carries the coroutine before exactly one subscribe, await_resume = ownership of the awaited mutex; blocking sync() = try-lock, stack awaiter complete before its registration, blocks on its flag iff the request was queued); the two resume functors handed to unlock (release(): result merged into the returned suspend point; ownership destruction: resumed and run at once) have units of their own. Not covered: liveness (a request is eventually granted), mutex destructor. Genuine defect found and fixed: a0e1620 (see known_findings.json).',
     technique='CBMC code contracts + loop contracts via goto-instrument --dfcc on the C translation of clang IR of mutex.h; atomic instructions replaced by rely/guarantee protocol primitives with ghost token/ownership; bounded unwinding for the list reversal; schedule replay through a guarded sync hook',
     trusted_base=['protocol-M atomic primitives and environment model (lib/rt_atomic_protM.c)', 'abstract callees recorded in ghost state (specs/C07/m_spec.h)'],
     assumptions=['rely/guarantee soundness (argued, DESIGN 3.5)', 'atomic RMWs on one location are totally ordered', 'build_queue: bounded(N) chain length'],
